@@ -407,6 +407,28 @@ def main():
                     deferred.append(g.name)
                     continue
                 todo.append((c, g))
+        # Modularity: a group of this property that REPLACES a call by the callee's contract assumes every clause of that
+        # contract.  The groups that enforce those callees are run as well ("support groups", also when they are registered
+        # for other properties only); a failing obligation there that carries no tag of this property makes the check
+        # undecided, because the proof of this property then rests on a contract that does not hold.
+        if not a.group:
+            have = set(g.name for c, g in todo)
+            support = set()
+            work = list(todo)
+            while work:
+                c, g = work.pop()
+                for r in g.replace:
+                    for g2 in c.groups:
+                        if g2.enforce == r and g2.name not in have and not g2.native:
+                            if g2.tier == 'thorough' and a.tier != 'thorough':
+                                continue
+                            have.add(g2.name)
+                            support.add(g2.name)
+                            todo.append((c, g2))
+                            work.append((c, g2))
+            for c in comps.values():
+                if c.name in metas:
+                    metas[c.name]['support_groups'] = sorted(support)
         if not todo and not infra:
             infra.append('no obligation group is registered for %s' % prop)
         with concurrent.futures.ThreadPoolExecutor(max_workers=int(os.environ.get('VERIF_JOBS', '16'))) as ex:
